@@ -22,6 +22,8 @@ func Scenarios(prop string) []gx.Sc {
 			{Name: "cg?m=1&np=1&n=2&mode=all&ns=1&gates=" + g + "&faults=" + f + ca, Q: 2, T: 3},
 			{Name: "cg?m=1&np=1&n=2&mode=k1&ns=2&init=valid&gates=" + g + "&faults=" + f + ca, Q: 2, T: 3},
 			{Name: "cg?m=2&np=1&n=2&mode=all&ns=1&gates=" + g + "&faults=" + f + ca, Q: 1, T: 2},
+			// two members, one partition, both rejoin: one of them runs a session without any claim
+			{Name: "cg?m=2&np=1&n=2&mode=all&ns=2&gates=" + g + "&faults=" + f + ca, Q: 1, T: 2},
 			{Name: "cg?m=1&np=1&n=2&mode=all&ns=1&cleanerr=1&gates=" + g + "&faults=" + f + ca, Q: 2, T: 3},
 		}
 	}
